@@ -228,18 +228,24 @@ def inline_new_helpers(raw, known):
         return []
     bodies = {b['q']: b for b in raw['bodies']}
     helpers = {}
+    new_pub = {}
     for q, b in bodies.items():
-        if q in known or b.get('kind') not in ('Fn', 'AssocFn') or b.get('vis') == 'pub':
+        if q in known or b.get('kind') not in ('Fn', 'AssocFn'):
             continue
         if b.get('impl_trait'):
             continue          # trait methods are reached through dispatch, not by name
+        if b.get('vis') == 'pub':
+            # a new public function stays (it is API), but where an *audited* function now delegates to it the audited
+            # function is judged on what it does, so the call is expanded there as well
+            new_pub[q] = b
+            continue
         helpers[q] = b
     # drop recursive helpers (directly or through other helpers)
     def reaches(q, target, seen):
         for c in _calls_of(bodies[q]):
             if c == target:
                 return True
-            if c in helpers and c not in seen:
+            if (c in helpers or c in new_pub) and c not in seen:
                 seen.add(c)
                 if reaches(c, target, seen):
                     return True
@@ -267,13 +273,15 @@ def inline_new_helpers(raw, known):
               and b.get('kind') in ('Fn', 'AssocFn') and not b.get('impl_trait') and is_leaf(b)}
     has_edges = any(isinstance(v, dict) and 'callees' in v for v in known.values())
     def new_leaf_edge(q, c):
+        if c in new_pub and c != q and q in known and not reaches(c, c, set()):
+            return True
         if not has_edges or c not in leaves or c == q:
             return False
         kq = known.get(q)
         if isinstance(kq, dict) and 'callees' in kq:
             return c not in kq['callees']
         return q not in known       # a new function's edges are all new (it is inlined itself if private)
-    if not helpers and not any(new_leaf_edge(q, _callee(blk['t'])) for q, b in bodies.items() for blk in b['blocks'] if blk['t']['k'] == 'call'):
+    if not helpers and not new_pub and not any(new_leaf_edge(q, _callee(blk['t'])) for q, b in bodies.items() for blk in b['blocks'] if blk['t']['k'] == 'call'):
         return []
     used = set()
     touched = set()
@@ -292,7 +300,7 @@ def inline_new_helpers(raw, known):
                         touched.add(q)
                         changed = True
                     elif new_leaf_edge(q, c) and q not in helpers:
-                        _inline_at(b, bi, copy.deepcopy(leaves[c]))
+                        _inline_at(b, bi, copy.deepcopy(leaves[c] if c in leaves else new_pub[c]))
                         used.add('edge %s -> %s' % (q.split('::')[-1], c.split('::')[-1]))
                         touched.add(q)
                         changed = True
@@ -354,6 +362,18 @@ def _inline_at(b, bi, callee, forward_refs=True):
             continue
         u = a['p']['l']
         ud = _single_def(b, u)
+        # the reference may have been moved or re-borrowed on its way into the argument (`t1 = &mut x; t2 = &mut *t1;
+        # f(move t2)`): it still refers to x
+        for _hop in range(4):
+            if ud is None:
+                break
+            rv0 = ud[2]['rv']
+            if rv0.get('k') == 'use' and rv0['o'].get('k') in ('move', 'copy') and not rv0['o']['p']['pr'] and str(b['locals'][rv0['o']['p']['l']].get('ty', '')).startswith('&'):
+                ud = _single_def(b, rv0['o']['p']['l'])
+            elif rv0.get('k') == 'ref' and [e.get('k') for e in rv0['p']['pr']] == ['deref']:
+                ud = _single_def(b, rv0['p']['l'])
+            else:
+                break
         if ud is None or ud[2]['rv'].get('k') != 'ref':
             continue
         tgt = ud[2]['rv']['p']
